@@ -320,6 +320,8 @@ def mutate(rng, spec, asg, pool, slots=None, typed_pair=False, fixed=0, near=Fal
             pass
         if near and isinstance(old, float) and rng.random() < 0.7:
             opts = [old + d for d in (1e-4, -1e-4, 0.004, -0.004, 0.04, -0.04, 0.4, 4.0, 40.0)]
+            if 0 < abs(old) < 1e-15:
+                opts = [old * 3, old * 0.5, 0.0, old + 1e-4]
             if abs(old) >= 2.0 ** 52:
                 import math as _m
                 opts = [old + k * _m.ulp(old) for k in (1, 2, 3, -1, 40)] + [old * 1.0003, old * 1.3]
@@ -448,7 +450,9 @@ ROUND_SCALARS = [1.25, 1.35, 2.5, 0.5, 1.5, -0.5, 1.0049, 1.005, 123.456, 149.9,
                  # numbers that are not floats: never to be rounded
                  _fr.Fraction(1, 3), _fr.Fraction(63, 50), _dc.Decimal('1.26'), True, 10 ** 20 + 1, 1.5 + 0.26j,
                  # floats beyond 2**52 (no fractional part left, but negative tolerances still round them)
-                 4503599627370497.0, 9007199254740994.0, 1.2340e30]
+                 4503599627370497.0, 9007199254740994.0, 1.2340e30,
+                 # ... and tiny ones, which tolerances beyond the 15 significant digits of a float still round to zero
+                 1e-17, 3e-17, 1e-301]
 ROUND_NESTED = [[1.26, 'a'], (1.26, [2.51, 3]), {'p': 1.26}, {'p': [1.24, {'q': 2.51}]},
                 [1.24, 'a'], (1.24, [2.49, 3]), {'p': 1.24}, [[1.26]], [[1.24]], (7, 'abc'),
                 (1.26, 'x'), frozenset([0.52, 'x']), (frozenset([1.26, 2]), 'y'), (1.2, (2.4, 'a'))]
@@ -526,7 +530,7 @@ def gen_case(rng, prop):
     kind = rng.choice(['func', 'func', 'func', 'method', 'partial', 'sibling', 'bound', 'boundcls'])
     if prop == 'C12':
         kind = rng.choice(['func', 'func', 'method'])
-    spec = gen_spec(rng, hostile_names=(['self', 'func', 'ignored'] if kind in ('func', 'sibling', 'partial') else None))
+    spec = gen_spec(rng, hostile_names=(['self', 'func', 'ignored', 'tol', 'deep', 'kwds'] if kind in ('func', 'sibling', 'partial') else None))
     if kind in ('method', 'bound') and rng.random() < 0.3:
         spec['_falsy'] = True        # the instance is "empty" (__len__() == 0): still an instance
     if prop == 'C10' and rng.random() < 0.15:
@@ -566,7 +570,7 @@ def gen_case(rng, prop):
                 case['ignore'] = [rng.choice([0, names[0], names[-1], len(names) - 1])]
                 case['ignore_scalar'] = True
     if prop == 'C12':
-        case['tol'] = rng.choice([None, -2, -1, 0, 1, 3])
+        case['tol'] = rng.choice([None, -2, -1, 0, 1, 3, 3, 16, 300])
         case['deep'] = rng.random() < 0.5
     # the configured decorator is sometimes re-created before it is applied (copied, or pickled as when it is shipped
     # to a worker): the copy must be configured like the original
@@ -628,6 +632,7 @@ def run_case(case, prop):
         pool += UNHASHABLE
     if prop == 'C09' and case.get('tol') is not None:
         pool += [2.04, 1.52, 0.12345, 1.005, 2.675, -0.2, -0.04, -0.0]     # (some round to negative zero)
+        pool += [_fr.Fraction(5, 3), _dc.Decimal('1.26')]                   # real numbers that are not floats
     if kind == 'sibling':
         pool = ['elder-default-%s' % n for n in tgt.defaults] * 3 + pool     # what the other sibling defaults to
     try:
